@@ -164,3 +164,92 @@ def value_arg_roots(f, o, limit=200):
             out.add(('call', x.callee)); continue
         work.extend(a for a in x.a if a and a[0] in ('v', 'a'))
     return out
+
+
+def reach_under(f, known, targets):
+    """Path-sensitive reachability with partial evaluation: `known(inst)` returns an int for instructions whose value is assumed
+    (or None); integer/boolean arithmetic, casts, llvm.expect and phis (resolved along the path) are folded; a conditional branch whose
+    condition folds takes only that side.  Returns the subset of `targets` (block ids) that some path from the entry reaches."""
+    def sgn(v, bits):
+        v &= (1 << bits) - 1
+        return v - (1 << bits) if bits > 1 and v >> (bits - 1) else v
+    hit = set()
+    seen = set(); work = [(0, None, ())]
+    n = 0
+    while work and n < 20000:
+        n += 1
+        b, prev, phis = work.pop()
+        if (b, prev, phis) in seen:
+            continue
+        seen.add((b, prev, phis))
+        pv = dict(phis)
+
+        def ev(o, d=0):
+            if d > 40:
+                return None
+            if o[0] == 'c':
+                return int(o[1])
+            if o[0] == 'n':
+                return 0
+            if o[0] != 'v':
+                return None
+            x = f.by_id[o[1]]
+            if x.i in pv:
+                return pv[x.i]
+            k = known(x)
+            if k is not None:
+                return k
+            if x.op in ('zext',):
+                v = ev(x.a[0], d + 1)
+                src = f.v(x.a[0])
+                if v is not None and src is not None and src.ty == 'i1':
+                    return v & 1
+                return v
+            if x.op in ('sext', 'trunc', 'freeze'):
+                return ev(x.a[0], d + 1)
+            if x.op == 'call' and isinstance(x.callee, str) and x.callee.startswith('llvm.expect'):
+                return ev(x.a[0], d + 1)
+            if x.op == 'select':
+                c = ev(x.a[0], d + 1)
+                if c is None:
+                    return None
+                return ev(x.a[1] if c else x.a[2], d + 1)
+            if x.op in ('add', 'sub', 'mul', 'and', 'or', 'xor', 'icmp', 'shl', 'ashr', 'lshr'):
+                p_, q_ = ev(x.a[0], d + 1), ev(x.a[1], d + 1)
+                if x.op == 'and' and (p_ == 0 or q_ == 0):
+                    return 0
+                if x.op == 'or' and x.ty == 'i1' and (p_ == 1 or q_ == 1):
+                    return 1
+                if p_ is None or q_ is None:
+                    return None
+                if x.op == 'icmp':
+                    pr = x.d['p']
+                    return int({'eq': p_ == q_, 'ne': p_ != q_, 'slt': p_ < q_, 'sle': p_ <= q_, 'sgt': p_ > q_, 'sge': p_ >= q_, 'ult': p_ < q_, 'ule': p_ <= q_, 'ugt': p_ > q_, 'uge': p_ >= q_}[pr])
+                w_ = int(x.ty[1:]) if x.ty.startswith('i') and x.ty[1:].isdigit() else 32
+                if x.op == 'shl':
+                    r_ = p_ << q_ if 0 <= q_ < 64 else 0
+                elif x.op in ('ashr', 'lshr'):
+                    r_ = p_ >> q_ if 0 <= q_ < 64 else 0
+                else:
+                    r_ = {'add': p_ + q_, 'sub': p_ - q_, 'mul': p_ * q_, 'and': p_ & q_, 'or': p_ | q_, 'xor': p_ ^ q_}[x.op]
+                return (r_ & 1) if w_ == 1 else sgn(r_, w_)
+            return None
+
+        blk = f.blocks[b]
+        for x in blk.insts:
+            if x.op == 'phi':
+                for a, bb in zip(x.a, x.d['bb']):
+                    if bb == prev:
+                        pv[x.i] = ev(a)
+        if b in targets:
+            hit.add(b)
+        t = blk.term
+        nxt = list(blk.succ)
+        if t.op == 'br' and t.a:
+            v = ev(t.a[0])
+            if v is not None:
+                nxt = [t.d['succ'][0] if v else t.d['succ'][1]]
+        keep = tuple(sorted((k, v) for k, v in pv.items() if v is not None))
+        for n_ in nxt:
+            work.append((n_, b, keep))
+    return hit
